@@ -157,6 +157,19 @@ def run_ops(case):
     rec["ctor"] = observe(g)
     fork_at = case.get("fork_at"); forked = None; nreal = 0
     for oi, op in enumerate(case["ops"]):
+        if case.get("resume_at") is not None and not op.get("probe") and nreal == case["resume_at"] and forked is None \
+                and not g.is_complete and not g.turn.value.endswith("from-deck"):
+            # the game is stored and restored: a new object built through the constructor from the current fields (Spec:
+            # `DealH`, any observable turn, the public card map as it stands); play goes on with the restored object
+            try:
+                h = type(g)(deck=list(g.deck), discard=list(g.discard), p1_hand=list(g.p1_hand), p2_hand=list(g.p2_hand),
+                            turn=g.turn, first_turn=g.first_turn, public_hud=dict(g.public_hud), last_draw=g.last_draw,
+                            last_draw_from_discard=g.last_draw_from_discard, turns=g.turns, max_turns=g.max_turns)
+                h.shuffles = g.shuffles          # (a counter the subclasses' constructors do not take)
+                h._cv_fake = g._cv_fake; h._cv_ints = g._cv_ints
+                g = h
+            except Exception as e:
+                rec["resume_exc"] = f"{type(e).__name__}: {str(e)[:100]}"
         if fork_at is not None and forked is None and not op.get("probe"):
             if nreal == fork_at:
                 if case.get("fork_mode") == "stale":
@@ -374,6 +387,8 @@ def gen_game(rng):
             "shuffle": [rng.randrange(4), rng.randrange(0, 20)], "ops": []}
     if rng.random() < 0.3:
         case["ints"] = True          # seat / pile / knock flags given as 1 and 0 instead of True and False
+    if rng.random() < 0.2:
+        case["resume_at"] = rng.choice([0, 1, 2, 3, 5, 8, 13])
     if rng.random() < 0.3:
         case["fork_at"] = rng.choice([0, 1, 2, 3, 4, 6, 9, 15])
         case["fork_mode"] = rng.choice(["late", "stale"])
